@@ -24,6 +24,12 @@ the body handles some of a burst, more arrive after its last read; left normally
 `listen()`, by cancellation; the same objects entered again), and the same with an in-memory MQTTTransport subclass at
 every saver position it can reach, compared with the model (`gated-mqtt-unread`).
 
+A fifth group has the far end END the connection while the context is open (`harness/props/hangup.py`): half-close,
+close, reset, a broken broker connection - after k complete messages, in the middle of one, before any - while the body
+reads through `gateway.listen()`; the context is then left in every way.  Both groups ask the far end whether it saw the
+connection closed and the process which sockets it still holds (`Wire.sockets_left_open`): the harness keeps a
+reference to the streams asyncio hands to the transport, so that a connection is only ever closed by the transport.
+
 Every await of the harness that could block is guarded by a real-time timeout; a hang is a violation.
 """
 
@@ -36,6 +42,8 @@ import json
 import os
 import socket
 import weakref
+import stat
+import struct
 from types import SimpleNamespace
 from unittest import mock
 
@@ -633,6 +641,9 @@ def oracle(corr: Corr, what: str, case: dict, obs: dict, faults: dict, pos: str 
         bad.append(f"{obs['leftover_tasks']} background task(s) left running")
     if obs["entered"] and not obs["disconnect_called"]:
         bad.append("entered but disconnect was never attempted")
+    if obs["entered"] and obs.get("sockets_left_open"):
+        bad.append("the context was left but the transport still holds its connection open (not disconnected): "
+                   + ", ".join(obs["sockets_left_open"]))
     want = expected_outcome(faults)     # with `cancel`: the cancellation, unless a later step fails
     if obs["outcome"] != want and obs["outcome"] not in (("hang",) if faults.get("cancel") else ("hang", "cancelled")):
         bad.append(f"propagated {obs['outcome']} ({obs['error']}), expected {want}")
@@ -1098,6 +1109,41 @@ async def _until(cond, limit: float = 1.0) -> bool:
     return True
 
 
+def socket_inodes() -> dict[int, int] | None:
+    """inode -> file descriptor of every socket this process holds open (None where /proc is not available)."""
+    try:
+        names = os.listdir("/proc/self/fd")
+    except OSError:
+        return None
+    out: dict[int, int] = {}
+    for name in names:
+        try:
+            st = os.fstat(int(name))
+        except (OSError, ValueError):
+            continue
+        if stat.S_ISSOCK(st.st_mode):
+            out[st.st_ino] = int(name)
+    return out
+
+
+def describe_socket(fd: int) -> str:
+    """A socket of this process in words (for a report): family, both addresses."""
+    try:
+        s = socket.socket(fileno=os.dup(fd))
+    except OSError as e:
+        return f"fd {fd} ({e})"
+    try:
+        def addr(get):
+            try:
+                a = get()
+            except OSError:
+                return "-"
+            return ":".join(str(x) for x in a[:2]) if isinstance(a, tuple) else (a.decode(errors="replace") if isinstance(a, bytes) else str(a)) or "unnamed"
+        return f"open {s.family.name} socket {addr(s.getsockname)} -> {addr(s.getpeername)}"
+    finally:
+        s.close()
+
+
 class Wire:
     """One built-in transport kind, offline, with the far end (the MySensors gateway on the wire / the broker) in the
     harness's hands: it delivers messages to the transport and tells whether the transport was really disconnected.
@@ -1114,9 +1160,28 @@ class Wire:
         self.peer_done = 0                # tcp: connections the far end saw closed (EOF or reset)
         self.peers: list = []             # serial: far ends of the socket pairs
         self.patch = None
+        self.baseline: dict | None = None  # the sockets this process held before the transport existed
+        self.reported: set = set()
+        self.streams: list = []           # stream kinds: every (reader, writer) pair the transport was given by asyncio
+        self.patches: list = []
 
     async def open(self):
         kind = self.kind
+        self.baseline = socket_inodes()
+        if kind in ("tcp", "serial"):
+            # The harness keeps a reference to the streams asyncio hands to the transport, as an application may
+            # (`transport.writer` is a public attribute): whether a connection is closed is then the transport's doing
+            # alone - a stream nobody refers to any more is closed by the interpreter's finaliser (ResourceWarning
+            # "unclosed StreamWriter"), which is not "the context disconnects the transport".
+            real_open = asyncio.open_connection
+            wire_ = self
+
+            async def recording_open_connection(*a, **k):
+                pair = await real_open(*a, **k)
+                wire_.streams.append(pair)
+                return pair
+            self.patches.append(mock.patch.object(asyncio, "open_connection", recording_open_connection))
+            self.patches[-1].start()
         if kind == "tcp":
             self.server = await asyncio.start_server(self._on_client, "127.0.0.1", 0)
             self.transport = TCPTransport("127.0.0.1", self.server.sockets[0].getsockname()[1])
@@ -1203,6 +1268,8 @@ class Wire:
         if self.kind == "serial":
             def all_closed() -> bool:
                 for peer in self.peers:
+                    if peer.fileno() < 0:
+                        continue          # this far end has gone away itself: nothing it could see
                     peer.setblocking(False)
                     try:
                         while peer.recv(65536):
@@ -1217,9 +1284,86 @@ class Wire:
             return all(c.exited for c in FakeMqttClient.instances if c.entered)
         return self.transport.events.count("disconnect") >= self.transport.events.count("connect")
 
+    def _stream_ended(self) -> bool | None:
+        r = getattr(self.transport, "reader", None)
+        if r is None:
+            return None
+        return bool(getattr(r, "_eof", False)) or getattr(r, "_exception", None) is not None
+
+    async def hang_up(self, how: str, wait: bool = True) -> None:
+        """The far end ends the connection.  Stream kinds: `half-close` it stops sending and keeps listening (FIN / end of
+        stream: a gateway that reboots, a bridge that shuts its sending side), `close` it goes away altogether, `reset`
+        (tcp) it aborts the connection (RST).  MQTT kinds: the broker connection breaks (`connection-lost`).
+        With `wait`, returns when the transport has received it (nobody has read it yet)."""
+        if self.kind in MQTT_KINDS:
+            await self.deliver([("recv-error",)])
+            return
+        if self.kind == "tcp":
+            await asyncio.wait_for(_until(lambda: len(self.peer_writers) > self.peer_done, GUARD), 2 * GUARD)
+            w = self.peer_writers[-1]
+            if how == "half-close":
+                w.write_eof()
+            elif how == "close":
+                w.close()
+            elif how == "reset":
+                w.get_extra_info("socket").setsockopt(socket.SOL_SOCKET, socket.SO_LINGER, struct.pack("ii", 1, 0))
+                w.transport.abort()
+            else:
+                raise ValueError(how)
+        else:
+            peer = self.peers[-1]
+            if how == "half-close":
+                peer.shutdown(socket.SHUT_WR)
+            elif how == "close":
+                peer.close()
+            else:
+                raise ValueError(how)
+        if wait and (self._stream_ended() is None or not await _until(lambda: self._stream_ended())):
+            await asyncio.sleep(0.03 * SLACK)
+
+    def _own_sockets(self) -> set:
+        socks = list(self.server.sockets) if self.server is not None else []
+        socks += [w.get_extra_info("socket") for w in self.peer_writers] + list(self.peers)
+        inodes = set()
+        for s in socks:
+            try:
+                if s is not None and s.fileno() >= 0:
+                    inodes.add(os.fstat(s.fileno()).st_ino)
+            except (OSError, ValueError):
+                pass
+        return inodes
+
+    async def sockets_left_open(self) -> list[str] | None:
+        """The sockets this process holds now that it did not hold before the transport existed and that are not the far
+        end's (the harness's) own: what the transport has opened and not closed.  Asked after the context was left.
+        A socket found open is reported once (a later context on the same objects answers for its own)."""
+        if self.baseline is None:
+            return None
+
+        def left() -> dict:
+            now = socket_inodes() or {}
+            own = self._own_sockets()
+            return {i: fd for i, fd in now.items() if i not in self.baseline and i not in own and i not in self.reported}
+        await _until(lambda: not left(), 0.1 * SLACK)
+        found = left()
+        self.reported |= set(found)
+        out = [describe_socket(fd) for fd in found.values()]
+        for _, w in self.streams:
+            if id(w) not in self.reported and not w.transport.is_closing():
+                self.reported.add(id(w))
+                if not found:
+                    out.append("a stream the transport opened is not closed")
+        return out
+
     async def close(self) -> None:
         if self.patch is not None:
             self.patch.stop()
+        for p in self.patches:
+            p.stop()
+        for _, w in self.streams:
+            if not w.transport.is_closing():
+                w.close()             # observed and reported; not left to the finaliser
+        self.streams.clear()
         for w in self.peer_writers:
             w.close()
         if self.server is not None:
@@ -1411,9 +1555,10 @@ async def run_unread(path: str, kind: str, before: int, read: int, late: int, ex
                 exc = e
             await asyncio.sleep(0.02 * SLACK)      # let executor callbacks and closed sockets settle
             outcome = "bodyErr" if exc is not None and ended_with and exc is ended_with[0] else classify(exc)
-            closed = None
+            closed = left_open = None
             if obs["entered"] and outcome != "hang":
                 closed = await wire.far_end_closed()
+                left_open = await wire.sockets_left_open()
             leftovers = [t for t in asyncio.all_tasks() - before_tasks if t is not asyncio.current_task() and not t.done()]
             names = sorted({getattr(t.get_coro(), "__qualname__", "?") for t in leftovers})
             names = [n for n in names if "on_client" not in n and "StreamReaderProtocol" not in n]
@@ -1427,7 +1572,7 @@ async def run_unread(path: str, kind: str, before: int, read: int, late: int, ex
             obs.update({"outcome": outcome, "error": None if exc is None else f"{type(exc).__name__}: {exc}"[:200],
                         "leftover_tasks": len(leftovers_real), "leftover_names": names, "saver_alive": False,
                         "disconnect_called": "disconnect" in called, "connect_called": "connect" in called,
-                        "far_end_saw_the_connection_closed": closed,
+                        "far_end_saw_the_connection_closed": closed, "sockets_left_open": left_open,
                         "started": True, "final_save_done": content == reg_at_exit,
                         "file_is_registry_at_exit": content == reg_at_exit,
                         "file": "truncated" if content == "" else "holds:1" if content == reg_at_exit else "other",
@@ -1621,7 +1766,11 @@ def run_c16(ctx) -> Corr:
                 "stretches T in virtual time; plus real-aiofiles runs with every built-in transport kind offline; plus contexts left "
                 "(normally, by an exception of the body or of listen(), by cancellation; once and twice on the same objects) while "
                 "the transport holds messages received and not read, with every built-in transport kind (oracle + the far end must "
-                "see the connection closed) and with an in-memory MQTT transport at every reachable saver position (oracle + model); "
+                "see the connection closed + the process holds no socket the transport opened); plus the far end ending the connection "
+                "(half-close, close, reset; the broker connection breaks) after k complete messages / in the middle of one / before any, "
+                "before the body reads or while it waits inside gateway.listen(), the body reading until listen() raises (and trying again) "
+                "or stopping before the end, then leaving with that error, normally, with another exception or by cancellation, once and "
+                "twice on the same objects (same oracle); and with an in-memory MQTT transport at every reachable saver position (oracle + model); "
                 "plus registries of 0..254 nodes that a concurrent task changes (add / remove / replace / update a node, a presentation "
                 "or id request handled by listen()) k loop iterations after the statement began, after the saver woke for a periodic "
                 "save, after the body ended - one k, or every k of the phase - on a stepping virtual-time loop, judged by the oracle "
@@ -1637,6 +1786,8 @@ def run_c16(ctx) -> Corr:
     corpus_histories = []
     for c in lib.load_corpus("C16"):
         if "churn" in c:        # a registry changed by a concurrent task: run by churn.churn_group
+            continue
+        if "hangup" in c:       # the far end ends the connection while the body reads: run by hangup.group
             continue
         if "sessions" in c:     # a history: [{"position":…, "faults":{…}, "file_before": "add"|"none"}, …]
             corpus_histories.append(([(x["position"], dict(x.get("faults", {})), x.get("file_before", "add")) for x in c["sessions"]],
@@ -1917,6 +2068,11 @@ def run_c16(ctx) -> Corr:
                       "transport traffic and these runs do not control the saver's position, so they are judged by the oracle alone; "
                       "the gated variant (in-memory MQTTTransport subclass, `gated-mqtt-unread`) places the saver and is compared "
                       "with the model's run for the same position and faults - unread messages must make no difference")
+
+    # the far end ends the connection (half-close, close, reset; the broker connection breaks) at every point relative
+    # to the message boundaries while the body reads through gateway.listen(); then the context is left (harness/props/hangup.py)
+    from . import hangup
+    confirmed(corr, "far-end-hangs-up", hangup.group(ctx, lib.rng_for(ctx.seed, "c16-hangup"), os.path.join(scratch, "c16-hangup.json")))
 
     # ... and the same with the saver placed: an MQTT kind of transport (subclass of the base class, messages through
     # `_receive`) with unread messages at exit, at every saver position that transport can reach
